@@ -13,13 +13,14 @@ MANIFEST = dict(
     text='Lean 4 theorems over a pure model of defaultPoll.handler / appendHup / onhups / readall / ioread / iosend '
          '(Netpoll.Poll.Handler) and of the Trigger/Close wake-up protocol (Netpoll.Poll.Wake), for every flag set, callback set and '
          'system-call result script (induction over the script): data before hang-up, hang-up at most once and only after the detach, '
+         'a reported hang-up is acted on unless bytes of that very descriptor were delivered in that dispatch (whatever other descriptors of the batch delivered), '
          'token released exactly once, acknowledged counts equal the kernel\'s results in order, nothing after the detach, every queued '
          'hang-up is reported (also when the close message is handled in the same batch), close message '
          'stops the loop after releasing both descriptors, a completed Trigger leaves the loop awake or about to be woken. '
-         'The model is tied to /repo on every run: flag masks, cascade order, Control table, growth literals and wake-up messages are '
-         'regenerated from the source (T-gen); the real handler is run on synthetic epoll events over real descriptors for the complete '
+         'The model is tied to /repo on every run: flag masks, cascade order, Control table, growth literals, wake-up messages, the statements of Wait\'s loop body '
+         '(grow at the top of the iteration, fetch, dispatch, opcache.free) and of appendHup / onhups are regenerated from the source (T-gen); the real handler is run on synthetic epoll events over real descriptors for the complete '
          'finite table (32 flag sets x 32 callback sets x 12 descriptor states x shapes) plus random batches around 128/256 events and '
-         'real-epoll scenarios with the real Wait loop, and its callback trace is compared with the model\'s and judged by the Lean spec oracle.',
+         'real-epoll scenarios with the real Wait loop (among them a wake-up that exactly fills the 128-entry event array with edge-triggered registrations at its head), and its callback trace is compared with the model\'s and judged by the Lean spec oracle.',
     note='Partial: which flag sets the kernel produces, level-triggered re-reporting, EPOLL_CTL_DEL semantics and one event per descriptor '
          'per epoll_wait are assumptions (A-epoll-*); the hang-up goroutine is modelled as running after the batch. '
          'Known behaviour proved as a witness: a descriptor appearing twice in one batch gets callbacks after its detach '
@@ -152,6 +153,9 @@ def report(rep, binary, wd, problems, proof_broken):
     others = [p for p in problems if p[1] not in ('impl-violates-spec', 'impl-panics')]
     if genuine:
         line, kind, detail, src = genuine[0]
+        if line.startswith('real '):
+            # a scenario on the real Wait loop: say everything that failed in it (its batches and its end-to-end facts)
+            detail = ' || '.join(p[2][:700] for p in genuine if p[0] == line and p[3] == src)
         small = pollrun.shrink(binary, line, kind, os.path.join(wd, 'shrink')) if line.startswith('batch') else line
         rep.violation('the real handler violates the C11 spec oracle on this batch (%d such batches; first, shrunk, is the replay; source: %s): %s'
                       % (len(genuine), src, detail), [small])
